@@ -2,7 +2,7 @@
    Statements only.  Models: Adt/*.v (hand models, run against the implementation on operation
    histories by the correspondence check); proofs: Adt/*Proofs.v. *)
 From Coq Require Import List Bool Arith ZArith.
-From GR Require Import Base.Result Adt.RefCache Adt.RefCacheProofs Adt.RetCache Adt.RetCacheProofs
+From GR Require Import Base.Result Adt.RefCache Adt.RefCacheProofs Adt.RefCachePartial Adt.RetCache Adt.RetCacheProofs
      Adt.OffsetMap Adt.IdSet Adt.SmallProofs Adt.BlockOrder Adt.BlockOrderProofs.
 Import ListNotations.
 
@@ -36,6 +36,29 @@ Theorem C20_refcache_get_references : forall c b, Inv c ->
   (forall x, In x l <-> In x (map fst (stab c)) /\ fst (abs c x) = Some b) /\
   Inv c' /\ (forall x, abs c' x = abs c x) /\ refs_get b (refs c') = None.
 Proof. exact get_references_spec. Qed.
+
+(* a get_references generator abandoned by its caller (any / all stopping early): whatever it had yielded by then were references
+   of the block, and the cache is left with the invariant, with every symbol denoting what it denoted, and with the same entries *)
+Theorem C20_refcache_get_references_abandoned : forall l c b c',
+  Inv c -> (forall s, In s l -> In s (map fst (stab c))) ->
+  get_references_abandoned c b l = Some c' ->
+  (Inv c' /\ (forall x, abs c' x = abs c x) /\ map fst (refs c') = map fst (refs c) /\ map fst (stab c') = map fst (stab c)) /\
+  (forall s, In s l -> fst (abs c s) = Some b).
+Proof. exact get_references_abandoned_spec. Qed.
+
+Theorem C20_refcache_any_references_can_be_yielded : forall l c b,
+  Inv c -> (forall s, In s l -> In s (map fst (stab c)) /\ fst (abs c s) = Some b) ->
+  exists c', get_references_abandoned c b l = Some c'.
+Proof. exact get_references_abandoned_total. Qed.
+
+Example C20_refcache_abandoned_example :
+  let c := mk_rc [(2, (T [0] [T [1] []], T [] []))] [(0, (None, false)); (1, (None, false)); (3, (Some 2, true))] in
+  match get_references_abandoned c 2 [3; 1] with
+  | Some c' => sym_get 1 (stab c') = (Some 2, false) /\ sym_get 0 (stab c') = (None, false) /\ abs c' 0 = (Some 2, false)
+               /\ refs_get 2 (refs c') <> None
+  | None => False
+  end.
+Proof. vm_compute. repeat split; discriminate. Qed.
 
 Theorem C20_refcache_apply : forall c, Inv c ->
   refs (apply c) = [] /\ Inv (apply c) /\
@@ -89,6 +112,11 @@ Proof. exact getitem_off_is_dict. Qed.
 Theorem C20_offsetmap_del : forall m e d m', om_wf m -> delitem_off m e d = Ok m' ->
   dd m e d <> None /\ forall e' d', dd m' e' d' = if Nat.eqb e e' && Z.eqb d d' then None else dd m e' d'.
 Proof. exact delitem_off_is_dict. Qed.
+Theorem C20_offsetmap_write_through_inner_dictionary : forall m e d v m', inner_setitem m e d v = Ok m' ->
+  (forall e' d', dd m' e' d' = if andb (Nat.eqb e e') (Z.eqb d d') then Some v else dd m e' d') /\
+  om_len m' = length (om_iter m') /\ (om_bool m' = true <-> om_iter m' <> []).
+Proof. exact inner_setitem_is_dict. Qed.
+
 Theorem C20_offsetmap_flat_view : forall m,
   om_len m = length (om_iter m) /\ (om_bool m = true <-> om_iter m <> []) /\
   forall e d, In (e, d) (om_iter m) -> exists i, In (e, i) m /\ In d (map fst i).
